@@ -2,7 +2,10 @@ mod c01;
 mod c05;
 mod c06;
 mod c08;
+mod c16;
 mod c17;
+mod c18;
+mod c19;
 mod hashers;
 mod hsweep;
 mod chist;
@@ -35,6 +38,18 @@ fn main() {
         println!("vref-selftest: pass={} fail={}", pass, fail);
         std::process::exit(if fail == 0 { 0 } else { 2 });
     }
+    if args[1] == "c18-child" {
+        c18::child(&args[2], &args[3], &args[4]);
+        return;
+    }
+    if args[1] == "c18-free" {
+        c18::child_free(&args[2], args[3].parse().unwrap());
+        return;
+    }
+    if args[1] == "c16-child" {
+        c16::child(&args[2], &args[3], &args[4]);
+        return;
+    }
     if args[1] == "replay" {
         let v: serde_json::Value = serde_json::from_str(&std::fs::read_to_string(&args[2]).unwrap()).unwrap();
         let r = if v.get("replay").is_some() { v["replay"].clone() } else { v };
@@ -59,6 +74,9 @@ fn main() {
         "c17" => c17::run(&tier, &config),
         "c12" => simd::run("C12", &tier, &config),
         "c13" => simd::run("C13", &tier, &config),
+        "c19" => c19::run(&tier, &config),
+        "c16" => c16::run(&tier, &config),
+        "c18" => c18::run(&tier, &config),
         "c09" => tf::run("C09", &tier, &config),
         "c10" => tf::run("C10", &tier, &config),
         "c14" => guts::run_c14(&tier, &config),
